@@ -133,6 +133,12 @@ def main():
             for g in groups:
                 vs += [pub[nm] for nm, k, w, off, raw in select(g)]
             vd = values(md)
+            # by name as well: an attribute that exists in both messages must have the same value (same bits)
+            pd = dict(gen.public_attrs(md))
+            named = [(nm, pub[nm], pd[nm]) for g in groups for nm, k, w, off, raw in select(g) if nm in pd and pd[nm] != pub[nm]]
+            if named:
+                em.violation("C10: %s: field %s decodes to %r in %s and %r in %s from the same bits" % (what, named[0][0], named[0][1], src, named[0][2], dst),
+                             {"source_identity": src, "source": bs.payload.hex(), "target_identity": dst, "target": pay.hex()}, {"differing": repr(named[:6])})
             if vs != vd:
                 em.violation("C10: %s: the same bits decode to different values" % what,
                              {"source_identity": src, "source": bs.payload.hex(), "target_identity": dst, "target": pay.hex()},
